@@ -178,11 +178,15 @@ class MOLGP:
 
     def compute_likelihood(self, x=None, sigma_min=0.25):
         assert self.alpha_mol_ is not None
-        if x is None:
-            x = np.array([1.0, 1.0])
         y = self.y_mol_
-        noise = (sigma_min + x[1] ** 2) * (self.K_ - self.Kcov_)
-        Kfull = x[0] ** 2 * self.Kcov_ + noise
+        if x is None:
+            # Likelihood of the model that was actually fitted: K_ already
+            # contains the covariance and noise scaling used by fit().
+            Kfull = self.K_
+        else:
+            # Likelihood for hyperparameters x relative to the stored matrices
+            noise = (sigma_min + x[1] ** 2) * (self.K_ - self.Kcov_)
+            Kfull = x[0] ** 2 * self.Kcov_ + noise
         Lfull = cholesky(Kfull, lower=True)
         vec = np.linalg.solve(Lfull, y)
         likelihood = -0.5 * vec.dot(vec)
